@@ -101,7 +101,7 @@ package netpoll
 //@   requires !needLock ==> c.heldP && !c.sealed_heldP
 //@   requires c.keychain[closing] != 0
 //@   requires c.sealed_heldP ==> c.heldP
-//@   rely locker.keychain[closing]: was != 0 ==> now != 0
+//@   rely locker.keychain[closing]: (was != 0 ==> now != 0) && now >= 0 && now <= 2
 //@   assume c.operator.detached < 2147482000
 //@   note fewer than 2^31 detach attempts on one poller slot tenure (the int32 counter would wrap)
 //@   ensures err == nil && cinv(c) && c.keychain[closing] != 0 && (c.sealed_heldP ==> c.heldP)
@@ -117,7 +117,7 @@ package netpoll
 //@ func (*connection).onClose
 //@   property C05 C12
 //@   requires cinv(c) && (c.sealed_heldP ==> c.heldP)
-//@   rely locker.keychain[closing]: was != 0 ==> now != 0
+//@   rely locker.keychain[closing]: (was != 0 ==> now != 0) && now >= 0 && now <= 2
 //@   ensures result == nil && cinv(c) && c.keychain[closing] != 0 && (c.sealed_heldP ==> c.heldP)
 //@   ensures old(c.heldP) ==> c.heldP && c.sealed_heldP == old(c.sealed_heldP) && cbRuns == old(cbRuns)
 //@   ensures !old(c.heldP) ==> (c.heldP == c.sealed_heldP) && cbRuns - old(cbRuns) <= 1 && cbRuns >= old(cbRuns)
@@ -127,7 +127,7 @@ package netpoll
 //@ func (*connection).Close
 //@   property C05 C12
 //@   requires cinv(c) && (c.sealed_heldP ==> c.heldP)
-//@   rely locker.keychain[closing]: was != 0 ==> now != 0
+//@   rely locker.keychain[closing]: (was != 0 ==> now != 0) && now >= 0 && now <= 2
 //@   ensures result == nil && cinv(c) && c.keychain[closing] != 0 && (c.sealed_heldP ==> c.heldP)
 //@   ensures old(c.heldP) ==> c.heldP && c.sealed_heldP == old(c.sealed_heldP) && cbRuns == old(cbRuns)
 //@   ensures !old(c.heldP) ==> (c.heldP == c.sealed_heldP) && cbRuns - old(cbRuns) <= 1 && cbRuns >= old(cbRuns)
@@ -151,7 +151,7 @@ package netpoll
 //@   requires onConnect != nil ==> c.state == 0
 //@   takes c.heldP, c.heldC if onConnect != nil
 //@   threadlocal !tkReleased && !tkSawClosing && !tkTriedAfterClosing && !tkSawLen && !tkTriedAfterLen && !tkLenZeroSeen && cbRuns == 0
-//@   rely locker.keychain[closing]: was != 0 ==> now != 0
+//@   rely locker.keychain[closing]: (was != 0 ==> now != 0) && now >= 0 && now <= 2
 //@   rely connection.state: now >= was && now <= 2 && (was == 0 && c.heldC ==> now == 0)
 //@   ensures (!c.heldP || c.sealed_heldP) && !c.heldC && cbRuns <= 1
 //@   ensures !c.heldP ==> tkReleased && tkSawClosing && (tkClosingVal != 0 ==> tkTriedAfterClosing) && (onRequest != nil ==> tkSawLen && (tkLenVal > 0 ==> tkTriedAfterLen))
@@ -210,7 +210,7 @@ package netpoll
 //@   property C05 C09
 //@   requires cinv(c) && !c.heldC && !c.heldP && !c.sealed_heldP
 //@   threadlocal !hupDisc
-//@   rely locker.keychain[closing]: was != 0 ==> now != 0
+//@   rely locker.keychain[closing]: (was != 0 ==> now != 0) && now >= 0 && now <= 2
 //@   ensures result == nil && !c.heldC && (c.heldP == c.sealed_heldP)
 //@   ensures discRuns - old(discRuns) <= 1 && cbRuns - old(cbRuns) <= 1 && cbRuns >= old(cbRuns)
 //@   ensures cbRuns > old(cbRuns) ==> hupDisc
@@ -280,7 +280,7 @@ package netpoll
 //@ func (*connection).Detach
 //@   property C05 C12
 //@   requires cinv(c) && (c.sealed_heldP ==> c.heldP)
-//@   rely locker.keychain[closing]: was != 0 ==> now != 0
+//@   rely locker.keychain[closing]: (was != 0 ==> now != 0) && now >= 0 && now <= 2
 //@   ensures result == nil && c.keychain[closing] != 0
 //@   modifies world, c.heldP, c.sealed_heldP, cbRuns
 
@@ -290,3 +290,52 @@ package netpoll
 //@   ensures old(c.inputBuffer.length) == 0 ==> closedbuf(c.inputBuffer)
 //@   ensures old(c.outputBuffer.length) == 0 ==> closedbuf(c.outputBuffer)
 //@   modifies UnsafeLinkBuffer.length, UnsafeLinkBuffer.mallocSize, UnsafeLinkBuffer.read, UnsafeLinkBuffer.head, UnsafeLinkBuffer.flush, UnsafeLinkBuffer.write, UnsafeLinkBuffer.caches, UnsafeLinkBuffer.cachePeek, linkBufferNode.refer, linkBufferNode.buf, linkBufferNode.origin, linkBufferNode.next, linkBufferNode.own, pool, mem:[]byte
+
+// ---- blocking reads (C07) ----
+// values travelling on the one-slot triggers
+//@ chan connection.readTrigger carries v: v == nil || (typeis(v, *exception) && (as(v, *exception).no == ErrEOF || as(v, *exception).no == ErrConnClosed))
+//@ chan connection.writeTrigger carries v: v == nil || (typeis(v, *exception) && as(v, *exception).no == ErrConnClosed)
+//@ pred errkind(err error, no int) = typeis(err, *exception) && as(err, *exception).no == no
+
+// ghost flags: what the waiting reader has published / observed on this path before it blocks
+//@ ghost global wrPub bool
+//@ ghost global wrLenSeen bool
+//@ ghost global wrLenVal int
+//@ ghost global wrCloseSeen bool
+//@ ghost global wrCloseVal int
+//@ ghost global wrBlocked bool
+
+//@ func (*connection).waitReadWithTimeout
+//@   property C07 C12
+//@   requires connok(c) && (c.readTimer != nil ==> c.readTimer.tstate == 0)
+//@   rely UnsafeLinkBuffer.length: now >= was
+//@   rely locker.keychain[closing]: (was != 0 ==> now != 0) && now >= 0 && now <= 2
+//@   ensures c.readTimer != nil && c.readTimer.tstate == 0
+//@   ensures err == nil ==> c.inputBuffer.length >= n
+//@   ensures err != nil ==> errkind(err, ErrReadTimeout) || errkind(err, ErrEOF) || errkind(err, ErrConnClosed)
+//@   modifies c.readTimer, time.Timer.tstate, UnsafeLinkBuffer.length, locker.keychain, wrLenSeen, wrLenVal, wrCloseSeen, wrCloseVal, wrBlocked
+//@   ghost after call (*UnsafeLinkBuffer).Len#1: wrLenSeen = wrPub; wrLenVal = result
+//@   ghost after call (*locker).status#1: wrCloseSeen = wrLenSeen; wrCloseVal = result
+//@   ghost before recv readTrigger#1: assert wrPub ==> wrLenSeen && wrLenVal < n && wrCloseSeen && wrCloseVal != 1 && wrCloseVal != 2; wrBlocked = true
+//@   loop 1 invariant connok(c) && c.readTimer != nil && c.readTimer.tstate == 1
+//@   loop 1 invariant err == nil
+
+//@ func (*connection).waitRead
+//@   property C07 C12
+//@   requires connok(c) && (c.readTimer != nil ==> c.readTimer.tstate == 0)
+//@   threadlocal !wrPub && !wrLenSeen && !wrCloseSeen && !wrBlocked
+//@   rely UnsafeLinkBuffer.length: now >= was
+//@   rely locker.keychain[closing]: (was != 0 ==> now != 0) && now >= 0 && now <= 2
+//@   ensures c.readTimer != nil ==> c.readTimer.tstate == 0
+//@   ensures err == nil ==> c.inputBuffer.length >= n
+//@   ensures err != nil ==> errkind(err, ErrReadTimeout) || errkind(err, ErrEOF) || errkind(err, ErrConnClosed)
+//@   ensures c.waitReadSize == 0 || c.waitReadSize == old(c.waitReadSize)
+//@   ensures old(c.keychain[closing]) != 0 && c.readDeadline <= 0 && c.readTimeout <= 0 ==> !wrBlocked
+//@   ensures old(c.keychain[closing]) == 1 && c.readDeadline <= 0 && c.readTimeout <= 0 && err != nil ==> errkind(err, ErrConnClosed) || errkind(err, ErrEOF)
+//@   modifies c.waitReadSize, c.readTimer, time.Timer.tstate, UnsafeLinkBuffer.length, locker.keychain, wrPub, wrLenSeen, wrLenVal, wrCloseSeen, wrCloseVal, wrBlocked
+//@   ghost after call atomic.StoreInt64#1: wrPub = true
+//@   ghost after call (*UnsafeLinkBuffer).Len#2: wrLenSeen = wrPub; wrLenVal = result
+//@   ghost after call (*locker).status#1: wrCloseSeen = wrLenSeen; wrCloseVal = result
+//@   ghost before recv readTrigger#1: assert wrPub && wrLenSeen && wrLenVal < n && wrCloseSeen && wrCloseVal != 1 && wrCloseVal != 2; wrBlocked = true
+//@   loop 1 invariant connok(c) && wrPub && (c.readTimer != nil ==> c.readTimer.tstate == 0) && c.readTimer == old(c.readTimer)
+//@   loop 1 invariant old(c.keychain[closing]) != 0 ==> !wrBlocked
